@@ -39,7 +39,7 @@ func logf(path, format string, args ...any) {
 func main() {
 	mode, logp := os.Args[1], os.Args[2]
 	c := make(chan os.Signal, 4)
-	signal.Notify(c, syscall.SIGQUIT)
+	signal.Notify(c, syscall.SIGQUIT, syscall.SIGINT) // "ignore" means: survives every catchable signal
 	logf(logp, "START %d\n", time.Now().UnixNano())
 	var exitAfter <-chan time.Time
 	code := 0
@@ -795,6 +795,13 @@ def replay_gated(pid, r, want, env):
     try:
         src = open(os.path.join(repo, 'testscript', 'testscript.go')).read()
         body = extract_func(src, 'waitOrStop')
+        # helpers of the same file that the function may call
+        for helper in ('interruptProcess',):
+            if helper + '(' in body:
+                try:
+                    body += '\n\n' + extract_func(src, helper)
+                except ValueError:
+                    pass
         files = {
             'go.mod': 'module wosr\n\ngo 1.22\n',
             'ctl/ctl.go': CTL, 'fake/context/context.go': FAKE_CONTEXT, 'fake/os/os.go': FAKE_OS,
